@@ -24,7 +24,7 @@ func init() {
 			"C12.zero: every comparison against the exported limit MaxObjectKeys is conjoined with a `!= 0` test (0 disables, as at the five MaxInputLength sites). " +
 			"C12.count: in the key loop every path from a member read to the success exit passes a limit comparison that covers that read (order independence of the verdict). " +
 			"C12.object: the members reach newSize as decoded by decodeValue / decodeUnit, which accept only a number resp. string token (null counts as wrongly typed) — C08.object under this property. C12.keyeq: a member is value / unit only when its lower-cased key equals the constant (C04.keys, strict: the normaliser is a function of the module evaluated byte class by byte class to A–Z ↦ a–z and nothing else; strings.ToLower also folds U+0130 and U+212A). C12.keys: lower-cased key switch against lower-case constants equal to the marshal keys; duplicate tests precede decoding and return the matching ErrDuplicated*; newOrError maps nil to ErrMissingValueKey/ErrMissingUnitKey; decodeValue/decodeUnit accept exactly json.Number/string; the default arm returns ErrUnexpectedKey iff RuleDisallowUnknownKeys else skips nested values with a depth counter. " +
-			"C12.all: the member loop is left for the success path only on the edge where More() reports no member left (otherwise later duplicates, unknown keys and the member count go unexamined and the verdict depends on member order). " +
+			"C12.entry: Size.UnmarshalJSON hands its bytes and the configured DefaultRule, unmasked, to the package-level Parser (a mask would drop RuleDisallowUnknownKeys or a form bit on the encoding/json route). C12.all: the member loop is left for the success path only on the edge where More() reports no member left (otherwise later duplicates, unknown keys and the member count go unexamined and the verdict depends on member order). " +
 			"S-WRAP: sentinels bound to %w; errors of the object reader re-wrapped by newParseError. The skipper's nesting counter is decided as a transfer function per token class (scalar, {, [, }, ]): +1, +1, −1, −1, 0, the decreased value tested against zero with the zero side returning nil; the token domain of the gate includes JSON null (a nil token: refused as wrongly typed); the key normaliser is evaluated with the examined byte at every position up to the longest key.",
 		NotDecided:  []string{"encoding/json tokenisation itself", "numeric equality of results (C08)", "behaviour for inputs longer than MaxInputLength (C18)", "whether the object form should honour RuleDisableUnit (the property gates forms, not units inside the object; the library does not)"},
 		Assumptions: []string{"json.Decoder.Token/More contracts; Token returns io.EOF at end of input and a syntax error for a malformed continuation"},
@@ -65,8 +65,14 @@ func runC12(e *Env) {
 		ruleC08Object(e)
 		ruleKeys(e, "C12.keyeq", true)
 	})
-	e.S.Floor("C12.object", 6)
+	e.S.Floor("C12.object", 7)
 	e.S.Floor("C12.keyeq", 4)
+	// the JSON entry point hands the configured rule to the parser as it is: a mask would drop RuleDisallowUnknownKeys
+	// (or a form bit) on the encoding/json route although the parser itself honours it
+	if fn := e.Method("C12.entry", "size", "Size", "UnmarshalJSON"); fn != nil {
+		ruleUnmarshalDeleg(e, "C12.entry", "size", fn, "UnmarshalJSON", "*size.DefaultRule", map[string]pred.Summary{})
+	}
+	e.S.Floor("C12.entry", 2)
 	ruleWrap(e, "C12.wrap", "size")
 	e.S.Floor("C12.wrap", 8)
 }
